@@ -76,6 +76,10 @@ def histModel (W k : Nat) (rc : Bool) (start ops obs : String) : String := Id.ru
         match Modes.merge W a [arrOfTable W ok orc tbl] with
         | .ok a' => a := a'
         | .error _ => return s!"step{step}:refused;file={dumpArr a}"
+      | ["mergen", tbls] =>
+        match Modes.merge W a ((tbls.splitOn "&").map (arrOfTable W k rc)) with
+        | .ok a' => a := a'
+        | .error _ => return s!"step{step}:refused;file={dumpArr a}"
       | ["delete", ns] =>
         let names := if ns == "~" then [] else ns.splitOn "+"
         match Modes.delete a names with
@@ -136,6 +140,10 @@ def histSpec (k : Nat) (rc : Bool) (start ops obs : String) : String := Id.run d
         if ok != k || orc != rc then return s!"step{step}:refused;file={dumpT t}"
         let (n1, r1) := parseTable tbl
         t := t.concat { names := n1, rows := norm r1 }
+      | ["mergen", tbls] =>
+        for tbl in tbls.splitOn "&" do
+          let (n1, r1) := parseTable tbl
+          t := t.concat { names := n1, rows := norm r1 }
       | ["delete", ns] =>
         let names := if ns == "~" then [] else ns.splitOn "+"
         if names.isEmpty || names.length == t.names.length || names.any (fun n => !t.names.contains n) then
